@@ -11,6 +11,7 @@ import (
 	"fmt"
 	"math/rand"
 	"os"
+	"reflect"
 	"sort"
 	"time"
 
@@ -66,7 +67,7 @@ type caseIn struct {
 	// of (Kind, ID) that the data source hands out (same objects, same backing array)
 	Alias *aliasSpec
 	// NilDS: the data source passed to Change is a nil interface (only legal for create-only changes)
-	NilDS bool
+	NilDS    bool
 	DS       []dsEntry
 	Sections [3]*sectionT // create, modify, delete; nil = section absent
 }
@@ -78,7 +79,7 @@ func (e *otherErr) Error() string { return fmt.Sprintf("datasource failure %d", 
 
 type ds struct {
 	*osm.HistoryDatasource
-	nft bool
+	nft   bool
 	errs  map[[2]int64]error
 	delay map[[2]int64]time.Duration
 }
@@ -275,10 +276,27 @@ func run(in *caseIn) obsT {
 	}()
 	var o obsT
 	if err != nil {
-		o.ErrText = err.Error()
+		// a non-nil error interface may hold a nil pointer (a helper declared with the concrete error
+		// type): its Error method may panic, and it is an error all the same
+		typedNil := false
+		if rv := reflect.ValueOf(err); rv.Kind() == reflect.Ptr && rv.IsNil() {
+			typedNil = true
+			o.ErrText = fmt.Sprintf("non-nil error holding a nil %T", err)
+		} else {
+			o.ErrText = func() (t string) {
+				defer func() {
+					if r := recover(); r != nil {
+						t = fmt.Sprintf("error of type %T whose Error method panics: %v", err, r)
+					}
+				}()
+				return err.Error()
+			}()
+		}
 		var nv *annotate.NoVisibleChildError
 		var oe *otherErr
 		switch {
+		case typedNil:
+			o.ErrKind = 3
 		case diff != nil:
 			o.ErrKind = 3
 			o.ErrText = "error together with a non-nil diff: " + o.ErrText
@@ -834,20 +852,44 @@ func main() {
 			return in
 		}
 		for _, in := range []*caseIn{
-			one(1, 4, 0, []dsEntry{{Kind: 0, ID: 5, Hist: h(1, 2, 3, 4, 5)}}),    // predecessor 3, later versions present
-			one(1, 4, 0, []dsEntry{{Kind: 0, ID: 5, Hist: h(5, 3, 1, 4, 2)}}),    // unsorted
-			one(2, 7, 0, []dsEntry{{Kind: 0, ID: 5, Hist: h(9, 2, 7, 5)}}),       // gap: 5 precedes 7
-			one(1, 1, 0, []dsEntry{{Kind: 0, ID: 5, Hist: h(0, 1)}}),             // version 0 precedes 1
-			one(1, 1, 0, []dsEntry{{Kind: 0, ID: 5, Hist: h(1, 2)}}),             // nothing below -> typed error
-			one(1, 1, 2, []dsEntry{{Kind: 0, ID: 5, Hist: h(1, 2)}}),             // ... or create when ignored
-			one(2, 3, 0, nil),                                                    // no history at all
-			one(2, 3, 2, nil),                                                    //
-			one(1, 3, 2, []dsEntry{{Kind: 0, ID: 5, Status: 2, Code: 7}}),        // other error is never ignored
-			one(0, 3, 0, []dsEntry{{Kind: 0, ID: 5, Status: 2, Code: 7}}),        // creates never consult the data source
+			one(1, 4, 0, []dsEntry{{Kind: 0, ID: 5, Hist: h(1, 2, 3, 4, 5)}}), // predecessor 3, later versions present
+			one(1, 4, 0, []dsEntry{{Kind: 0, ID: 5, Hist: h(5, 3, 1, 4, 2)}}), // unsorted
+			one(2, 7, 0, []dsEntry{{Kind: 0, ID: 5, Hist: h(9, 2, 7, 5)}}),    // gap: 5 precedes 7
+			one(1, 1, 0, []dsEntry{{Kind: 0, ID: 5, Hist: h(0, 1)}}),          // version 0 precedes 1
+			one(1, 1, 0, []dsEntry{{Kind: 0, ID: 5, Hist: h(1, 2)}}),          // nothing below -> typed error
+			one(1, 1, 2, []dsEntry{{Kind: 0, ID: 5, Hist: h(1, 2)}}),          // ... or create when ignored
+			one(2, 3, 0, nil), // no history at all
+			one(2, 3, 2, nil), //
+			one(1, 3, 2, []dsEntry{{Kind: 0, ID: 5, Status: 2, Code: 7}}), // other error is never ignored
+			one(0, 3, 0, []dsEntry{{Kind: 0, ID: 5, Status: 2, Code: 7}}), // creates never consult the data source
 		} {
 			c := mkCase(in, nil)
 			c.Class = "corpus"
 			w.Add(c)
+		}
+	}
+	{
+		// a history that exists but holds nothing below our version (a partial extract): every kind,
+		// modify and delete, every option value; only-own, only-later and own+later histories
+		for kind := 0; kind < 3; kind++ {
+			for si := 1; si <= 2; si++ {
+				for ign := 0; ign < 3; ign++ {
+					for _, vs := range [][]int{{3}, {4, 5}, {3, 4}} {
+						in := &caseIn{Ign: ign}
+						var hist []el
+						for _, v := range vs {
+							hist = append(hist, el{kind, 5, v, true, g.nextPay()})
+						}
+						in.DS = []dsEntry{{Kind: kind, ID: 5, Hist: hist}}
+						sec := &sectionT{}
+						sec[kind] = []el{{kind, 5, 3, si == 1, g.nextPay()}}
+						in.Sections[si] = sec
+						c := mkCase(in, nil)
+						c.Class = "history-without-earlier-version"
+						w.Add(c)
+					}
+				}
+			}
 		}
 	}
 	{
@@ -1003,15 +1045,15 @@ func main() {
 		missing.DS = missing.DS[:2]
 		cans := []*wire.Case{
 			mkCase(mk(), func(o *obsT) { o.Actions[2].Old[0].Version, o.Actions[2].Old[0].Pay = 2, 23 }), // an older predecessor
-			mkCase(mk(), func(o *obsT) { o.Actions[2], o.Actions[3] = o.Actions[3], o.Actions[2] }),       // order within a section
-			mkCase(mk(), func(o *obsT) { o.Actions[0], o.Actions[4] = o.Actions[4], o.Actions[0] }),       // section order
-			mkCase(mk(), func(o *obsT) { o.Actions[4].New[0].Visible = true }),                            // delete marked visible
-			mkCase(mk(), func(o *obsT) { o.Actions[0].OSM[0].Visible = false }),                           // create not visible
-			mkCase(mk(), func(o *obsT) { o.Actions[3].Type = 2 }),                                         // action type
-			mkCase(mk(), func(o *obsT) { o.Actions = o.Actions[:4] }),                                     // an element without action
-			mkCase(mk(), func(o *obsT) { o.Actions = append(o.Actions, o.Actions[4]) }),                   // two actions for one element
-			mkCase(missing, func(o *obsT) { o.EID++ }),                                                    // wrong id in the typed error
-			mkCase(missing, func(o *obsT) { o.ErrKind = 3 }),                                              // untyped error
+			mkCase(mk(), func(o *obsT) { o.Actions[2], o.Actions[3] = o.Actions[3], o.Actions[2] }),      // order within a section
+			mkCase(mk(), func(o *obsT) { o.Actions[0], o.Actions[4] = o.Actions[4], o.Actions[0] }),      // section order
+			mkCase(mk(), func(o *obsT) { o.Actions[4].New[0].Visible = true }),                           // delete marked visible
+			mkCase(mk(), func(o *obsT) { o.Actions[0].OSM[0].Visible = false }),                          // create not visible
+			mkCase(mk(), func(o *obsT) { o.Actions[3].Type = 2 }),                                        // action type
+			mkCase(mk(), func(o *obsT) { o.Actions = o.Actions[:4] }),                                    // an element without action
+			mkCase(mk(), func(o *obsT) { o.Actions = append(o.Actions, o.Actions[4]) }),                  // two actions for one element
+			mkCase(missing, func(o *obsT) { o.EID++ }),                                                   // wrong id in the typed error
+			mkCase(missing, func(o *obsT) { o.ErrKind = 3 }),                                             // untyped error
 		}
 		for _, c := range cans {
 			c.Canary = 1
